@@ -24,6 +24,7 @@ from term_image.image import BlockImage  # noqa: E402
 
 NO_ALPHA_MODES = {"1", "L", "RGB", "HSV", "CMYK"}
 TMP = tempfile.mkdtemp(prefix="c02-")
+__import__("atexit").register(__import__("shutil").rmtree, TMP, ignore_errors=True)  # scratch images of this run
 DEFAULT_ALPHA = 40 / 255  # documented default threshold of str() / format() without '#'
 
 
